@@ -22,6 +22,7 @@ func Generate(r *vh.RNG) *Scenario {
 		}
 		return r.Intn(n)
 	}
+	lifePanic := r.Chance(1, 8) // only some scenarios script a failing lifecycle handler
 	hasSup := make([]bool, n)
 	scn.Roles = make([]Role, n)
 	for t := 0; t < n; t++ {
@@ -53,8 +54,15 @@ func Generate(r *vh.RNG) *Scenario {
 				}
 			}
 		}
+		otherTok := func() int { // watching oneself is excluded: what it should mean is not specified
+			for {
+				if x := anyTok(); x != t {
+					return x
+				}
+			}
+		}
 		if r.Chance(1, 4) {
-			atLaunch = append(atLaunch, Action{K: "watch", T: anyTok()})
+			atLaunch = append(atLaunch, Action{K: "watch", T: otherTok()})
 		}
 		if r.Chance(1, 4) {
 			atLaunch = append(atLaunch, Action{K: "tell", T: anyTok(), N: r.Intn(4)})
@@ -82,7 +90,7 @@ func Generate(r *vh.RNG) *Scenario {
 				case 7:
 					do = append(do, Action{K: "term", T: anyTok(), G: r.Bool()})
 				case 8:
-					do = append(do, Action{K: "watch", T: anyTok()})
+					do = append(do, Action{K: "watch", T: otherTok()})
 				case 9:
 					do = append(do, Action{K: "unwatch", T: anyTok()})
 				case 10:
@@ -113,7 +121,8 @@ func Generate(r *vh.RNG) *Scenario {
 			if r.Chance(1, 8) {
 				do := []Action{{K: "tell", T: anyTok(), N: r.Intn(4)}}
 				inst := -1
-				if r.Chance(1, 6) {
+				if lifePanic && r.Chance(1, 3) {
+					// a failing lifecycle handler (standing finding: swallowed when the actor is not alive)
 					do = append(do, Action{K: "panic"})
 					inst = r.Intn(2)
 				}
